@@ -89,3 +89,112 @@ pub fn next_up(x: f64) -> f64 {
 pub fn next_down(x: f64) -> f64 {
     -next_up(-x)
 }
+
+/// Outcome of a case run in a process of its own (`mahf-mc <Cxx> --replay <file>`).
+pub enum Isolated {
+    Holds,
+    Violations(Vec<(String, String)>),
+    /// the process died (abort on allocation failure, stack overflow, kill on timeout): description
+    Crashed(String),
+    /// the harness could not run the case
+    Machinery(String),
+}
+
+/// Runs one replayable case in a child process with an address-space cap and a wall-clock budget, so that a subject
+/// that aborts the process (allocation failure is not a panic) or never returns fails that case only.
+pub fn isolated_replay(id: &str, case: &serde_json::Value, mem_kb: u64, budget: std::time::Duration) -> Isolated {
+    use std::io::Read;
+    static N: std::sync::atomic::AtomicU64 = std::sync::atomic::AtomicU64::new(0);
+    let dir = std::env::var("VERIF_DIR").unwrap_or_else(|_| "/verif".to_string());
+    let n = N.fetch_add(1, std::sync::atomic::Ordering::Relaxed);
+    let path = format!("{}/replays/.isolated-{}-{}-{}.json", dir, id, std::process::id(), n);
+    if std::fs::create_dir_all(format!("{}/replays", dir)).is_err() || std::fs::write(&path, serde_json::json!({"case": case}).to_string()).is_err() {
+        return Isolated::Machinery(format!("cannot write {}", path));
+    }
+    let exe = match std::env::current_exe() {
+        Ok(e) => e,
+        Err(e) => return Isolated::Machinery(format!("current_exe: {}", e)),
+    };
+    let script = format!("ulimit -v {}; ulimit -c 0; exec \"$0\" \"$1\" --replay \"$2\"", mem_kb);
+    let child = std::process::Command::new("sh")
+        .arg("-c")
+        .arg(&script)
+        .arg(&exe)
+        .arg(id)
+        .arg(&path)
+        .env("VERIF_THREADS", "2")
+        .stdout(std::process::Stdio::piped())
+        .stderr(std::process::Stdio::null())
+        .spawn();
+    let mut child = match child {
+        Ok(c) => c,
+        Err(e) => {
+            std::fs::remove_file(&path).ok();
+            return Isolated::Machinery(format!("cannot spawn: {}", e));
+        }
+    };
+    let start = std::time::Instant::now();
+    let status = loop {
+        match child.try_wait() {
+            Ok(Some(s)) => break Some(s),
+            Ok(None) => {
+                if start.elapsed() > budget {
+                    child.kill().ok();
+                    child.wait().ok();
+                    break None;
+                }
+                std::thread::sleep(std::time::Duration::from_millis(5));
+            }
+            Err(_) => break None,
+        }
+    };
+    let mut out = String::new();
+    if let Some(mut so) = child.stdout.take() {
+        so.read_to_string(&mut out).ok();
+    }
+    std::fs::remove_file(&path).ok();
+    let status = match status {
+        Some(s) => s,
+        None => return Isolated::Crashed(format!("did not finish within {:?}", budget)),
+    };
+    match status.code() {
+        Some(0) => Isolated::Holds,
+        Some(1) => {
+            let mut v = vec![];
+            let mut lines = out.lines().peekable();
+            while let Some(l) = lines.next() {
+                if let Some(i) = l.find("result=violation sig=\"") {
+                    let sig = l[i + 22..].trim_end_matches('"').to_string();
+                    let mut detail = String::new();
+                    while let Some(n) = lines.peek() {
+                        if n.starts_with("REPLAY ") {
+                            break;
+                        }
+                        detail.push_str(lines.next().unwrap());
+                        detail.push('\n');
+                    }
+                    v.push((sig, detail.trim_end().to_string()));
+                }
+            }
+            if v.is_empty() {
+                Isolated::Machinery(format!("child exit 1 without a violation line: {}", out.chars().take(200).collect::<String>()))
+            } else {
+                Isolated::Violations(v)
+            }
+        }
+        Some(2) => Isolated::Machinery(out.chars().take(300).collect()),
+        other => Isolated::Crashed(format!("the process died ({}){}", match other { Some(c) => format!("exit code {}", c), None => format!("{}", status) }, if out.is_empty() { String::new() } else { format!("; last output: {}", out.lines().last().unwrap_or("")) })),
+    }
+}
+
+impl Isolated {
+    /// violations of the case; a dead process is the violation `(crash_sig, crash_detail + how it died)`
+    pub fn into_violations(self, crash_sig: &str, crash_detail: &str) -> Result<Vec<(String, String)>, String> {
+        match self {
+            Isolated::Holds => Ok(vec![]),
+            Isolated::Violations(v) => Ok(v),
+            Isolated::Crashed(w) => Ok(vec![(crash_sig.to_string(), format!("{}: {}", crash_detail, w))]),
+            Isolated::Machinery(m) => Err(m),
+        }
+    }
+}
